@@ -74,6 +74,8 @@ func runC04(c *Ctx, r *Report) {
 	checkLevelCacheWriters(c, r, "C04/level-cache-writers")
 	importFoundation(c, r, "C04", "driver-options")
 	importFoundation(c, r, "C04", "read-until")
+	r.Rule("C04/onx-send-command", "a platform hook's send-command step goes through (*network.Driver).SendCommand, the method that first acquires the default desired level", 2)
+	checkOnXSendCommand(c, r, "C04/onx-send-command")
 	r.Rule("C04/pattern-recompiled", "buildPrivGraph recompiles every level's pattern unconditionally (UpdatePrivileges after an edit takes effect)", 1)
 	r.Rule("C04/always-fetches-prompt", "AcquirePriv reports success only after it fetched the device's prompt", 1)
 	checkPatternRecompiled(c, r, "C04/pattern-recompiled")
